@@ -4,8 +4,8 @@ from sa.facts import AnalysisBroken, strip_targs
 from sa import analysis as an
 from sa import rules as K
 
-UNITS = ['fs/aligned-file.cpp', 'fs/xfile.cpp']
-FLOOR = 30
+UNITS = ['fs/aligned-file.cpp', 'fs/xfile.cpp', 'fs/virtual-file.cpp']
+FLOOR = 38
 P = 'C16'
 CLAIM = ('Decides for fs/aligned-file.cpp and fs/xfile.cpp: (1) every request AlignedFileAdaptor forwards to the underlying file is either on '
          'the fast path guarded by the alignment test of the request (and of the memory when memory alignment is requested), or has its '
@@ -173,6 +173,65 @@ def composite(R, prog):
                    describe=lambda ev: 'the loop continues only if the sub-file transferred the whole part', min_sites=1)
 
 
+def vectored(R, prog):
+    """VirtualFile gives the composite files their vectored operations: element by element (nocopy) or through one bounce buffer (copy)."""
+    V = 'photon::fs::VirtualFile::'
+    f = prog.find(V + 'piov_nocopy')
+    G = K.build_f(R, prog, f)
+    pf, poff = K.param(f, 0), K.param(f, 3)                 # (f, iov, iovcnt, offset)
+    sub = lambda ev: ev.kind == 'call' and not ev.e.get('fn') and 'calleeExpr' in ev.e and '->*' in ev.f.show(ev.e['calleeExpr'])
+    ELEM = r'^((?:\w+)(?:\.|->))iov_(base|len)$'
+    advo = lambda ev: ev.kind == 'binop' and ev.e['op'] == '+=' and ev.path(ev.e['l']) == poff
+    accs = set(ev.path(ev.e['l']) for _, _, ev in G.events() if ev.kind == 'binop' and ev.e['op'] == '+=' and ev.path(ev.e['l']) != poff and re.match(ELEM, ev.show(ev.e['r']) or ''))
+    acc = K.one(accs, 'byte counter', f)
+    advc = lambda ev: ev.kind == 'binop' and ev.e['op'] == '+=' and ev.path(ev.e['l']) == acc
+    seen = an.SeenTracker([('called', sub, ('advo', 'advc')), ('advo', advo), ('advc', advc)])
+    res = an.run(G, [seen, an.GuardTracker(lambda k: True)])
+
+    def elem_args(st, ev):
+        a = [ev.arg_show(i) or '' for i in range(3)]
+        m0, m1 = re.match(ELEM, a[0]), re.match(ELEM, a[1])
+        return bool(m0 and m1 and m0.group(1) == m1.group(1) and m0.group(2) == 'base' and m1.group(2) == 'len' and a[2] == poff and
+                    ('S:called' not in st or ('S:advo' in st and 'S:advc' in st)))
+    K.check_at(R, P + '.K10', G, res, sub, elem_args, key_fn=lambda ev: P + '.K10:VirtualFile::piov_nocopy:element-forwarded-at-running-offset',
+               describe=lambda ev: 'each element is forwarded as (iov_base, iov_len, offset) after offset and the byte count were advanced past the previous element', min_sites=1, what='(this->*f)(...)')
+    for lam, tag, nm in ((advo, 'advo', 'offset'), (advc, 'advc', 'count')):
+        K.check_at(R, P + '.K10', G, res, lam, require=lambda st, ev, tag=tag: 'S:called' in st and ('S:' + tag) not in st and re.match(ELEM, ev.show(ev.e['r']) or '') and (ev.show(ev.e['r']) or '').endswith('iov_len'),
+                   key_fn=lambda ev, nm=nm: '%s.K10:VirtualFile::piov_nocopy:%s-advanced-by-element-length' % (P, nm),
+                   describe=lambda ev: 'advanced by the element length, once per forwarded element', min_sites=1)
+    K.check_at(R, P + '.K6', G, res, advo, require=lambda st, ev: any(re.match(r'^G:(\w+|\[.*\]) < .*iov_len=F$', k) for k in st),
+               key_fn=lambda ev: P + '.K6:VirtualFile::piov_nocopy:short-element-is-an-error', describe=lambda ev: 'the walk continues only if the whole element was transferred', min_sites=1)
+    K.check_at(R, P + '.K10', G, res, lambda ev: ev.kind == 'return' and ev.depth == 0 and ev.f.const(ev.e['sub']) is None,
+               require=lambda st, ev: ev.path(ev.e['sub']) == acc and ('S:called' not in st or ('S:advo' in st and 'S:advc' in st)),
+               key_fn=lambda ev: P + '.K10:VirtualFile::piov_nocopy:returns-accumulated-count', describe=lambda ev: 'success returns the accumulated byte count', min_sites=1)
+    # the default vectored path of every composite (piov -> piov_copy) keeps the sub-file's own byte count; the element-wise
+    # walk turns a short (clipped) element into -1, so it must not be reachable from that path
+    strict = V + 'piov_nocopy'
+    reach = K.may_reach(prog, {strict}, funcs=[g for g in prog.funcs.values() if g.file.endswith(('fs/virtual-file.cpp', 'fs/virtual-file.h'))])
+    for nm in ('piov', 'piov_copy'):
+        g = prog.find(V + nm)
+        bad = g.name in reach or strip_targs(g.name) in reach
+        (R.violated if bad else R.held)(P + '.K9', '%s.K9:VirtualFile::%s:clipping-path-never-uses-the-strict-walk' % (P, nm), g.id, '%s:%d' % (g.file, g.line),
+                                         'piov_nocopy reports -1 for a short element; a composite clips at its end, so the default vectored path must not reach it' +
+                                         (' (it does)' if bad else ''))
+    # bounce-buffer variant
+    f = prog.find(V + 'piov_copy')
+    G = K.build_f(R, prog, f)
+    poff = K.param(f, 3)
+    res = an.run(G, [an.GuardTracker(lambda k: True), an.SeenTracker([('gathered', lambda ev: ev.kind == 'call' and (ev.callee() or '').endswith('::memcpy_to'))])])
+    cnt = K.one(K.locals_assigned_from_call(f, r'::sum$'), 'total size of the vector', f)
+    rd = K.one(K.locals_assigned_from_call(f, r'VirtualFile::pread$') | K.locals_assigned_from_call(f, r'IFile::pread$'), 'result of the bounce read', f)
+    K.check_at(R, P + '.K11', G, res, lambda ev: ev.kind == 'call' and (ev.callee() or '').endswith('::memcpy_from'),
+               require=lambda st, ev: ev.arg_path(1) == rd and (('G:%s <= 0=F' % rd) in st or ('G:0 < %s=T' % rd) in st),
+               key_fn=lambda ev: P + '.K11:VirtualFile::piov_copy:scatter-exactly-what-was-read', describe=lambda ev: 'the caller\'s vector receives exactly the bytes the bounce read returned (> 0)', min_sites=1)
+    bounce = lambda ev: ev.kind == 'call' and (ev.callee() or '').split('::')[-1] in ('pread', 'pwrite') and len(ev.e.get('args', [])) == 3 and ev.arg_path(1) == cnt
+    K.check_at(R, P + '.K11', G, res, bounce,
+               require=lambda st, ev: ev.arg_path(2) == poff and ((ev.callee() or '').endswith('pread') or 'S:gathered' in st),
+               key_fn=lambda ev: '%s.K11:VirtualFile::piov_copy:bounce-%s-covers-the-whole-vector-at-offset' % (P, (ev.callee() or '').split('::')[-1]),
+               describe=lambda ev: 'one bounce transfer of sum(iov) bytes at the caller\'s offset (writes: after gathering the vector)', min_sites=2, what='bounce pread/pwrite')
+
+
 def run(R, prog, tier):
+    R.guard(vectored, R, prog)
     R.guard(aligned, R, prog)
     R.guard(composite, R, prog)
